@@ -156,7 +156,10 @@ def react (c : Cfg) : Phase → Env → Option Act
       -- raw exchange: the answer is opaque bytes, there is no error field; an error is never final
       (if v = 0 ∨ final then none else some (failWith (.kafka err)))
     else some { next := .awaitNext v, verdict := final }
-  | .awaitAuth _, .eof => some (failWith (.kafka 58))   -- errors.Is(err, io.EOF) → SASLAuthenticationFailed
+  -- `errors.Is(err, io.EOF)` → SASLAuthenticationFailed.  The legacy Conn reader and the raw exchange
+  -- surface io.EOF; `protocol.ReadResponse` turns it into io.ErrUnexpectedEOF (`dontExpectEOF`), so on the
+  -- framed Transport path the mapping in `authenticateSASL` is not reached and the error stays opaque.
+  | .awaitAuth v, .eof => if c.path = .dialer ∨ v = 0 then some (failWith (.kafka 58)) else some (failWith .other)
   | .awaitAuth _, .ioerr => some (failWith .other)
   -- StateMachine.Next
   | .awaitNext _, .mechNext none => some (failWith .other)
